@@ -56,6 +56,27 @@ Qed.
 Theorem resume_recomputed : forall s i, same_but_inv s (set_inv s i).
 Proof. exact set_inv_same. Qed.
 
+(* rolling back: loading a state with factors and compute_inverses into an ALREADY USED preconditioner gives exactly the state
+   (and the actions) loading it into any other one gives - in particular a fresh one - whenever the batch counters agree (both at a
+   step boundary): the old second-order data, factors, step count and intervals of the target leave no trace *)
+Theorem load_forgets_the_target : forall cfg cks s s' ck c a g vf vi,
+  nth_error cks ck = Some c -> k_factors c = Some (a, g) -> a <> FNone -> g <> FNone ->
+  k_fus c = Some vf -> k_ius c = Some vi ->
+  mini s = mini s' -> a_cnt s = a_cnt s' -> g_cnt s = g_cnt s' ->
+  kstep cfg cks s (Load ck true) = kstep cfg cks s' (Load ck true).
+Proof. exact load_forgets_the_target_l. Qed.
+
+Example rollback_example :
+  let cfg := {| c_hook := true; c_acc := 1; c_fus0 := HConst 1; c_ius0 := HConst 3 |} in
+  let it := [Fwd true; Bwd true; Step] in
+  let h := it ++ [Save true] ++ it ++ it in               (* save after step 1, train on to step 3 *)
+  let '(s, acts) := krun cfg [] (init (HConst 1) (HConst 3)) h in
+  let ck := saved_of (fst (krun cfg [] (init (HConst 1) (HConst 3)) it)) true in
+  steps s = 3 /\
+  kstep cfg [ck] s (Load 0 true) = kstep cfg [ck] (init (HConst 1) (HConst 3)) (Load 0 true) /\
+  steps (fst (kstep cfg [ck] s (Load 0 true))) = 1.
+Proof. vm_compute. repeat split. Qed.
+
 Example checkpoint_example :
   let cfg := {| c_hook := true; c_acc := 1; c_fus0 := HConst 1; c_ius0 := HConst 1 |} in
   let it := [Fwd true; Bwd true; Step] in
@@ -91,6 +112,7 @@ Proof. intros. split; [reflexivity|]. intros H. cbn [cev_of]. now rewrite H. Qed
 
 Print Assumptions save_is_read_only.
 Print Assumptions save_load_restores.
+Print Assumptions load_forgets_the_target.
 Print Assumptions resume_equivalent_same_data.
 Print Assumptions resume_equivalent_next_refresh.
 Print Assumptions resume_recomputed.
